@@ -150,6 +150,13 @@ const void **ares_htable_all_buckets(const ares_htable_t *htable, size_t *num)
 
   *num = 0;
 
+  /* Nothing to return.  Don't ask the allocator for zero bytes: whether that
+   * yields NULL depends on the allocator in use, and callers treat a zero
+   * count as "no array" without freeing one. */
+  if (htable->num_keys == 0) {
+    return NULL;
+  }
+
   out = ares_malloc_zero(sizeof(*out) * htable->num_keys);
   if (out == NULL) {
     return NULL; /* LCOV_EXCL_LINE */
